@@ -1,8 +1,70 @@
-import Ufo2ftModel.Props.Geom
+import Ufo2ftModel.Props.Flatten
+import Ufo2ftModel.Props.Reverse
 import Ufo2ftModel.Spec.C15
-/-! Property C15 theorems (the shared algebra is in Props/Geom.lean). -/
+/-! Property C15: the theorems, assembled from the shared geometry proofs
+    (Props/Geom, Props/Reverse, Props/Render, Props/Flatten). -/
 namespace Ufo2ft.C15
 open Ufo2ft List
+
+/-- a glyph set all of whose contours are closed (no `move` point), acyclic, with non-singular components, is `Good`:
+    the hypothesis of the render-preservation theorems is met by every ordinary font. -/
+theorem good_of_closed (gs : GlyphSet) (rank : String → Nat) (hr : Ranked gs rank)
+    (hns : ∀ n g, gs.get? n = some g → ∀ k ∈ g.comps, k.t.det ≠ 0)
+    (hcl : ∀ n g, gs.get? n = some g → ∀ c ∈ g.contours, ∀ p ∈ c, p.seg ≠ some Seg.move) : Good gs rank :=
+  ⟨hr, hns, fun n g hg c hc => reverseContour_involutive c (hcl n g hg c hc)⟩
+
+/-- **C15 (decompose)**: DecomposeComponentsFilter with any include predicate never changes what a glyph renders. -/
+theorem C15_decompose (incl : String → Bool) (rank : String → Nat) (gs : GlyphSet) (st : FState)
+    (h : runFilter decomposeStep incl gs = .ok st) (hg : Good gs rank) (hn : Named gs) :
+    SameRender rank st.gs gs :=
+  (runFilter_sameRender decomposeStep rank (stepOK_of_isDecomp rank _ decomposeStep_isDecomp) incl gs st h hg hn).2.2
+
+/-- **C15 (decomposeTransformed)** -/
+theorem C15_decomposeTransformed (incl : String → Bool) (rank : String → Nat) (gs : GlyphSet) (st : FState)
+    (h : runFilter decomposeTransformedStep incl gs = .ok st) (hg : Good gs rank) (hn : Named gs) :
+    SameRender rank st.gs gs :=
+  (runFilter_sameRender _ rank (stepOK_of_isDecomp rank _ decomposeTransformedStep_isDecomp) incl gs st h hg hn).2.2
+
+/-- a glyph none of whose components has a non-identity 2×2 is left untouched by decomposeTransformed -/
+theorem C15_decomposeTransformed_untouched (st : FState) (g : Glyph)
+    (h : g.comps.any isTransformed = false) : decomposeTransformedStep st g = .ok (st, false) := by
+  simp [decomposeTransformedStep, h]
+
+/-- **C15 (flatten)**: FlattenComponentsFilter never changes what a glyph renders. -/
+theorem C15_flatten (incl : String → Bool) (rank : String → Nat) (gs : GlyphSet) (st : FState)
+    (h : runFilter flattenStep incl gs = .ok st) (hg : Good gs rank) (hn : Named gs) :
+    SameRender rank st.gs gs :=
+  (runFilter_sameRender flattenStep rank (flattenStep_ok rank) incl gs st h hg hn).2.2
+
+/-- **C15 (flatten depth)**: a flattened glyph references only simple-or-mixed glyphs: nesting depth ≤ 1. -/
+theorem C15_flatten_depth (rank : String → Nat) (st st' : FState) (g : Glyph) (r : Bool)
+    (h : flattenStep st g = .ok (st', r)) (hget : st.gs.get? g.name = some g) (hg : Good st.gs rank) :
+    ∀ g', st'.gs.get? g.name = some g' → ∀ c ∈ g'.comps, ∀ b, st.gs.get? c.base = some b → isSimpleOrMixed b = true := by
+  unfold flattenStep at h
+  by_cases he : g.comps.isEmpty = true
+  · rw [if_pos he] at h
+    have := Except.ok.inj h
+    rw [← (Prod.mk.inj this).1]
+    intro g' hg' c hc
+    rw [hget] at hg'; rw [← Option.some.inj hg'] at hc
+    have : g.comps = [] := by simpa using he
+    rw [this] at hc; cases hc
+  · rw [if_neg he] at h
+    cases hf : flattenGlyphComps st.gs g.comps with
+    | error e => rw [hf] at h; cases h
+    | ok res =>
+      obtain ⟨cs, flag⟩ := res
+      rw [hf] at h
+      dsimp only at h
+      have := Except.ok.inj h
+      rw [← (Prod.mk.inj this).1]
+      dsimp only
+      intro g' hg' c hc b hb
+      rw [get?_set st.gs g.name g.name g _ hget] at hg'
+      simp only [if_true] at hg'
+      rw [← Option.some.inj hg'] at hc
+      exact (flattenGlyphComps_spec st.gs rank hg.ranked hg.nonsing g.comps cs flag hf
+        (hg.nonsing g.name g hget)).2.2 c hc b hb
 
 /-- `_flattenComponent` composes the nested transform with the outer one: the flattened component's
     matrix maps a point exactly as outer ∘ nested. -/
@@ -10,5 +72,114 @@ theorem flatten_matrix (outer nested : Affine) (p : Q × Q) :
     ((outer.translate nested.dx nested.dy).compose ⟨nested.xx, nested.xy, nested.yx, nested.yy, 0, 0⟩).apply p
       = outer.apply (nested.apply p) := by
   rw [Affine.flatten_factor, Affine.apply_compose]
+
+/-- **C15 (transformations, one glyph)**: an orientation-preserving matrix `m` composed on the outside of a resolved
+    outline maps every point by `m` and changes nothing else (order, types, direction). -/
+theorem render_compose_pos (gs : GlyphSet) (m : Affine) (hm : 0 < m.det) :
+    ∀ (f : Nat) (t : Affine) (g : Glyph),
+      render f gs (m.compose t) g = (render f gs t g).map (Contour.map m) := by
+  intro f
+  induction f with
+  | zero => intro t g; simp [render]
+  | succ f ih =>
+    intro t g
+    rw [render_succ, render_succ, List.map_append]
+    congr 1
+    · simp only [drawContours, List.map_map, Bool.true_and]
+      apply List.map_congr_left
+      intro c _
+      have hd : (m.compose t).det < 0 ↔ t.det < 0 := by
+        rw [Affine.det_compose, Rat.mul_neg_iff_of_pos_left hm]
+      simp only [Function.comp]
+      by_cases h : t.det < 0
+      · simp only [hd.mpr h, h, decide_true, if_true]; rw [Contour.map_compose]
+      · have : ¬ (m.compose t).det < 0 := fun h' => h (hd.mp h')
+        simp only [this, h, decide_false, Bool.false_eq_true, if_false]; rw [Contour.map_compose]
+    · rw [List.map_flatMap]
+      apply flatMap_congr'
+      intro k _
+      simp only [renderOne]
+      cases gs.get? k.base with
+      | none => rfl
+      | some b => simp only [Affine.compose_assoc]; exact ih _ b
+
+/-- the compensation for an already-transformed base: the component `M ∘ (T ∘ M⁻¹)` of a base whose resolved outline
+    has become `M(outline)` draws `M(T(outline))` — the matrix is applied once. -/
+theorem C15_compensation (m t : Affine) (h : m.det ≠ 0) (p : Q × Q) :
+    (m.compose (t.compose m.inverse)).apply (m.apply p) = m.apply (t.apply p) :=
+  Affine.compensation m t h p
+
+/-- anchors, width and height of a transformed glyph are mapped by the matrix (its linear part for the advance) -/
+theorem C15_transformBody (m minv : Affine) (modified : List String) (g : Glyph) :
+    (transformBody m minv modified g).anchors = g.anchors.map (fun a => let p := m.apply (a.x, a.y); { a with x := p.1, y := p.2 }) ∧
+    ((transformBody m minv modified g).width, (transformBody m minv modified g).height) = m.applyVec (g.width, g.height) ∧
+    (transformBody m minv modified g).contours = g.contours.map (Contour.map m) := by
+  simp [transformBody]
+
+/-! ### non-vacuity: a concrete glyph set meeting every hypothesis -/
+
+def exTri : Contour := [⟨0, 0, some .line⟩, ⟨100, 0, some .line⟩, ⟨50, 80, some .curve⟩]
+def exGs : GlyphSet :=
+  [("a", ⟨"a", 500, 0, [exTri], [], []⟩),
+   ("b", ⟨"b", 500, 0, [], [⟨"a", ⟨-1, 0, 0, 1, 10, 0⟩⟩], []⟩),
+   ("c", ⟨"c", 500, 0, [], [⟨"b", ⟨1, 0, 1/2, -1, 0, 5⟩⟩, ⟨"a", Affine.id⟩], []⟩)]
+def exRank (n : String) : Nat := if n = "c" then 2 else if n = "b" then 1 else 0
+
+example : Named exGs := by
+  intro n g h
+  simp only [exGs, GlyphSet.get?, alookup] at h
+  split at h
+  · cases h; rename_i e; simpa using e
+  · split at h
+    · cases h; rename_i e; simpa using e
+    · split at h
+      · cases h; rename_i e; simpa using e
+      · cases h
+
+end Ufo2ft.C15
+
+namespace Ufo2ft.C15
+open Ufo2ft List
+
+theorem exGs_cases {P : String → Glyph → Prop} (n : String) (g : Glyph) (h : exGs.get? n = some g)
+    (ha : P "a" ⟨"a", 500, 0, [exTri], [], []⟩)
+    (hb : P "b" ⟨"b", 500, 0, [], [⟨"a", ⟨-1, 0, 0, 1, 10, 0⟩⟩], []⟩)
+    (hc : P "c" ⟨"c", 500, 0, [], [⟨"b", ⟨1, 0, 1/2, -1, 0, 5⟩⟩, ⟨"a", Affine.id⟩], []⟩) : P n g := by
+  simp only [exGs, GlyphSet.get?, alookup] at h
+  split at h
+  · cases h; rename_i e; have : n = "a" := (by simpa using e : _ = n).symm
+    subst this; exact ha
+  · split at h
+    · cases h; rename_i e; have : n = "b" := (by simpa using e : _ = n).symm
+      subst this; exact hb
+    · split at h
+      · cases h; rename_i e; have : n = "c" := (by simpa using e : _ = n).symm
+        subst this; exact hc
+      · cases h
+
+/-- the hypotheses of the render-preservation theorems are satisfiable by a glyph set with a mirrored component
+    nested two levels deep -/
+example : Good exGs exRank := by
+  apply good_of_closed
+  · intro n g h
+    refine exGs_cases (P := fun n g => ∀ k ∈ g.comps, exRank k.base < exRank n) n g h ?_ ?_ ?_
+    · intro k hk; cases hk
+    · intro k hk; simp only [mem_singleton] at hk; subst hk; decide
+    · intro k hk; simp only [mem_cons, mem_singleton, not_mem_nil, or_false] at hk
+      rcases hk with rfl | rfl <;> decide
+  · intro n g h
+    refine exGs_cases (P := fun _ g => ∀ k ∈ g.comps, k.t.det ≠ 0) n g h ?_ ?_ ?_
+    · intro k hk; cases hk
+    · intro k hk; simp only [mem_singleton] at hk; subst hk; simp only [Affine.det]; grind
+    · intro k hk; simp only [mem_cons, mem_singleton, not_mem_nil, or_false] at hk
+      rcases hk with rfl | rfl <;> simp only [Affine.det, Affine.id] <;> grind
+  · intro n g h
+    refine exGs_cases (P := fun _ g => ∀ c ∈ g.contours, ∀ p ∈ c, p.seg ≠ some Seg.move) n g h ?_ ?_ ?_
+    · intro c hc p hp
+      simp only [mem_singleton] at hc; subst hc
+      simp only [exTri, mem_cons, mem_singleton, not_mem_nil, or_false] at hp
+      rcases hp with rfl | rfl | rfl <;> simp
+    · intro c hc; cases hc
+    · intro c hc; cases hc
 
 end Ufo2ft.C15
